@@ -826,6 +826,7 @@ pub fn gen_workload(run_seed: u64, engine: Engine, lim: &Limits, faults: bool) -
             stalls,
             seed: r.next_u64(),
             enabled_sites,
+            fine_gap: *r.pick(&[0u32, 0, 3, 10, 40, 200, 2000]),
         },
     }
 }
